@@ -10,7 +10,8 @@ MCRows == { <<3, 3>> }
 MCWeights == {1}
 MCUBatches == {<< <<<<3, 3>>, 1>> >>}
 MCWBatches == {<< <<<<3, 3>>, 2>> >>}
-MCOps == {"FromArrays", "Merge", "MergeRefused", "DropD"}
+MCOps == {"FromArrays", "Merge", "MergeRefused", "MergeMinFreq", "DropD"}
+MCScaleArgs == {<<2, 1>>}
 MCRetCands == {NoneRet}
 MCProjAxes == {<<1>>}
 MCMergeArgs == {<<a, x>> : a \in 1..5, x \in 0..3}
